@@ -85,6 +85,28 @@ def extract_file(relpath):
     return d
 
 
+def extract_bytes(relpath, data, tag):
+    """run the extractor on a modified copy of a source file (mutation self-test only)"""
+    ensure_extract_bin()
+    d0 = os.path.join(WORK, "mut", tag)
+    os.makedirs(d0, exist_ok=True)
+    fp = os.path.join(d0, os.path.basename(relpath))
+    with open(fp, "wb") as f:
+        f.write(data)
+    p = subprocess.run([EXTRACT_BIN, fp], capture_output=True, text=True)
+    try:
+        d = json.loads(p.stdout)
+    except Exception:
+        raise Undecided(f"extractor failed on mutated {relpath}: {p.stdout[:200]}")
+    if "error" in d:
+        raise Undecided(f"mutant does not parse: {d['error']}")
+    d["src"] = data
+    d["by_path"] = {}
+    for it in d["items"]:
+        d["by_path"].setdefault(it["path"], []).append(it)
+    return d
+
+
 # --------------------------------------------------------------------------- template parsing
 
 TAG_RE = re.compile(r"//\s*\[([A-Za-z0-9_:,\- ]+)\]\s*$")
@@ -325,6 +347,31 @@ def assemble(unit, canary=False, mutant=None, check_fp=True):
         it = part[1]
         ex, x = locate(it)
         src = ex["src"]
+        if mutant and mutant.get("item") == it.id and x["kind"] == "fn" and x["body"] is not None:
+            # mutation self-test: apply the textual fault to a copy of the source file, then extract from the copy,
+            # so that anchors are located in the mutated text exactly as they would be after a real edit of /repo
+            mb0, mb1 = x["body"]["start"], x["body"]["end"]
+            mbody = src[mb0:mb1]
+            frm = mutant["find"].encode()
+            cnt = mbody.count(frm)
+            occ = mutant.get("occurrence")
+            if occ is None:
+                if cnt != 1:
+                    raise Undecided(f"mutant anchor `{mutant['find']}` occurs {cnt} times in {it.path}")
+                idx = mbody.index(frm)
+            else:
+                if cnt <= occ:
+                    raise Undecided(f"mutant anchor `{mutant['find']}` occurs {cnt} times in {it.path}")
+                idx = -1
+                for _ in range(occ + 1):
+                    idx = mbody.index(frm, idx + 1)
+            msrc = src[:mb0 + idx] + mutant["replace"].encode() + src[mb0 + idx + len(frm):]
+            ex = extract_bytes(it.file, msrc, f"{unit}_{mutant.get('n', 0)}")
+            cands = ex["by_path"].get(it.path, [])
+            if len(cands) <= it.nth:
+                raise Undecided(f"mutant lost item {it.path}")
+            x = cands[it.nth]
+            src = msrc
         info = {"id": it.id, "file": it.file, "path": it.path, "kind": it.kind, "props": it.props, "safety": it.safety,
                 "tpl": it.tpl, "tpl_line": it.line, "repo_line": byte_line(src, x["start"])}
         if it.kind in ("struct", "enum"):
@@ -436,8 +483,6 @@ def assemble(unit, canary=False, mutant=None, check_fp=True):
             st = b0 + body.index(anc) + (len(anc) if g["pos"] == "after" else 0)
             reps.append((st, st, " " + gt + " ", dict(org_base, kind="ghost", line=g["line"], tags=[t for _, l in g["lines"] for t in parse_tags(l)])))
         all_edits = list(it.edits)
-        if mutant and mutant.get("item") == it.id:
-            all_edits.append({"from": mutant["find"], "to": mutant["replace"], "why": "MUTANT", "line": 0, "mutant": True, "occurrence": mutant.get("occurrence")})
         for e in all_edits:
             frm = e["from"].encode().decode("unicode_escape").encode() if "\\" in e["from"] else e["from"].encode()
             cnt = body.count(frm)
